@@ -120,7 +120,9 @@ class AsyncioTransportStreamSocketAdapter(AsyncStreamTransport):
         await self.__protocol.writer_drain()
 
     async def send_all_from_iterable(self, iterable_of_data: Iterable[bytes | bytearray | memoryview]) -> None:
-        self.__transport.writelines(iterable_of_data)
+        # Skip empty chunks: asyncio's selector transport never removes a trailing empty buffer from its write queue
+        # (sendmsg() reports zero bytes for it), so the loop would keep polling the socket and close() would never complete.
+        self.__transport.writelines([data for data in iterable_of_data if len(data)])
         # Some asyncio versions do not notify the protocol (pause_writing()) after writelines(), unlike write():
         # re-applying the limits makes the transport check its buffer size, so writer_drain() really waits.
         self.__transport.set_write_buffer_limits(0)
